@@ -31,13 +31,13 @@ fn is_bbox_lookup(e: &Expr) -> bool {
     m2.method == "get_element_bbox" && matches!(&*m2.receiver, Expr::Path(_)) && m2.args.len() == 1
 }
 
-struct MutVar {
-    name: String,
-    ty: String,
-    ext: bool,
+pub(super) struct MutVar {
+    pub name: String,
+    pub ty: String,
+    pub ext: bool,
 }
 
-fn state_tuple(m: &[MutVar]) -> String {
+pub(super) fn state_tuple(m: &[MutVar]) -> String {
     if m.len() == 1 {
         m[0].name.clone()
     } else {
@@ -77,8 +77,90 @@ impl<'a> Cx<'a> {
         }
     }
 
+    /// `match` with guards, first-match semantics made explicit: `rK__` is the value of the match against
+    /// the arms from K on; a guarded arm is `| pat => if guard then body else r(K+1)__ | _ => r(K+1)__`
+    /// (all expressions are pure and total, so binding the remainders first changes nothing)
+    pub(super) fn guarded_match(&self, scrut: &str, cols: usize, arms: &[syn::Arm], bodies: &[String]) -> R<String> {
+        if arms.is_empty() {
+            return Err("match without arms".into());
+        }
+        let irrefutable = |alt: &str| {
+            alt.split(", ").all(|c| {
+                c == "_"
+                    || (c.chars().next().is_some_and(|ch| ch.is_lowercase() || ch == '_')
+                        && c.chars().all(|ch| ch.is_alphanumeric() || ch == '_')
+                        && c != "true"
+                        && c != "false"
+                        && c != "none")
+            })
+        };
+        let wild = vec!["_"; cols].join(", ");
+        // split into segments: each guarded arm alone, each maximal run of unguarded arms together
+        let mut segs: Vec<(usize, usize)> = vec![];
+        let mut i = 0;
+        while i < arms.len() {
+            if arms[i].guard.is_some() {
+                segs.push((i, i + 1));
+                i += 1;
+            } else {
+                let mut j = i;
+                while j < arms.len() && arms[j].guard.is_none() {
+                    j += 1;
+                }
+                segs.push((i, j));
+                i = j;
+            }
+        }
+        let base = self.fresh.get();
+        self.fresh.set(base + segs.len() as u32);
+        let name = |k: usize| format!("r{}__", base as usize + k);
+        let mut lets: Vec<String> = vec![];
+        let mut head = String::new();
+        for (k, (lo, hi)) in segs.iter().enumerate().rev() {
+            let is_last = k + 1 == segs.len();
+            let mut m = format!("(match {scrut} with");
+            let mut total = false;
+            if arms[*lo].guard.is_some() {
+                if is_last {
+                    return Err("guarded arm falls off the end of a match".into());
+                }
+                let alts = self.arm_alts(&arms[*lo].pat, cols)?;
+                let g = self.expr(&arms[*lo].guard.as_ref().unwrap().1)?;
+                for a in &alts {
+                    write!(m, "\n  | {a} =>\n    if {g} then\n{}\n    else\n      {}", indent(&bodies[*lo], 6), name(k + 1)).unwrap();
+                    total = total || irrefutable(a);
+                }
+            } else {
+                for idx in *lo..*hi {
+                    let alts = self.arm_alts(&arms[idx].pat, cols)?;
+                    for a in &alts {
+                        if total {
+                            return Err(format!("unreachable arm after an irrefutable pattern: {a}"));
+                        }
+                        write!(m, "\n  | {a} =>\n{}", indent(&bodies[idx], 4)).unwrap();
+                        total = total || irrefutable(a);
+                    }
+                }
+            }
+            if !total && !is_last {
+                write!(m, "\n  | {wild} =>\n    {}", name(k + 1)).unwrap();
+            }
+            m.push(')');
+            if k == 0 {
+                head = m;
+            } else {
+                lets.push(format!("let {} := {m}", name(k)));
+            }
+        }
+        if lets.is_empty() {
+            Ok(head)
+        } else {
+            Ok(format!("({}\n{head})", lets.join("\n")))
+        }
+    }
+
     /// statements over `let mut` state: assignments shadow, `if` / `for` return the state tuple
-    fn st_block(&self, stmts: &[Stmt], muts: &mut Vec<MutVar>, top: bool) -> R<String> {
+    pub(super) fn st_block(&self, stmts: &[Stmt], muts: &mut Vec<MutVar>, top: bool) -> R<String> {
         let mut out: Vec<String> = vec![];
         let mut have_value = false;
         for (i, st) in stmts.iter().enumerate() {
@@ -139,6 +221,53 @@ impl<'a> Cx<'a> {
                     } else {
                         out.push(format!("let {name} := {v}"));
                     }
+                }
+                Stmt::Expr(Expr::Binary(b), Some(_)) if matches!(b.op, BinOp::AddAssign(_) | BinOp::SubAssign(_) | BinOp::MulAssign(_)) => {
+                    let Expr::Path(p) = &*b.left else {
+                        return Err(format!("unsupported compound assignment {}", quote::quote!(#b)));
+                    };
+                    let name = p.path.get_ident().map(|i| ident(&i.to_string())).ok_or("unsupported assignment target")?;
+                    let mv = muts.iter().find(|m| m.name == name).ok_or(format!("assignment to non-`mut` `{name}`"))?;
+                    if mv.ext {
+                        return Err(format!("compound assignment to `{name}` (initialised with f32::MAX)"));
+                    }
+                    let v = self.expr(&b.right)?;
+                    let op = match b.op {
+                        BinOp::AddAssign(_) => "+",
+                        BinOp::SubAssign(_) => "-",
+                        _ => "*",
+                    };
+                    out.push(format!("let {name} := ({name} {op} {v})"));
+                }
+                Stmt::Expr(Expr::MethodCall(mc), Some(_)) if mc.method == "push" && mc.args.len() == 1 => {
+                    // `v.push(e)` on a `let mut v = vec![..]`
+                    let Expr::Path(p) = &*mc.receiver else {
+                        return Err(format!("unsupported `push` receiver {}", quote::quote!(#mc)));
+                    };
+                    let name = p.path.get_ident().map(|i| ident(&i.to_string())).ok_or("unsupported `push` receiver")?;
+                    let mv = muts.iter().find(|m| m.name == name).ok_or(format!("`push` on non-`mut` `{name}`"))?;
+                    if !mv.ty.starts_with("(List ") {
+                        return Err(format!("`push` on `{name}` of type {}", mv.ty));
+                    }
+                    let v = self.expr(&mc.args[0])?;
+                    out.push(format!("let {name} := ({name} ++ [{v}])"));
+                }
+                Stmt::Expr(Expr::Match(m), _) if !(top && last) => {
+                    let (s, cols) = self.scrut(&m.expr)?;
+                    let tup = state_tuple(muts);
+                    // arm bodies: a block of statements over the state, or `()`
+                    let bodies: R<Vec<String>> = m
+                        .arms
+                        .iter()
+                        .map(|a| match &*a.body {
+                            Expr::Block(b) => self.st_block(&b.block.stmts, muts, false),
+                            Expr::Tuple(t) if t.elems.is_empty() => Ok(tup.clone()),
+                            other => Err(format!("unsupported arm body over mutable state: {}", quote::quote!(#other))),
+                        })
+                        .collect();
+                    let bodies = bodies?;
+                    let v = self.guarded_match(&s, cols, &m.arms, &bodies)?;
+                    out.push(format!("let {tup} := {v}"));
                 }
                 Stmt::Expr(Expr::If(i), _) if !(top && last) => {
                     if matches!(&*i.cond, Expr::Let(_)) {
